@@ -33,6 +33,9 @@ type job struct {
 	ps     *pluginSpec
 	cfg    cfgSpec
 	events []genEvent
+	// load regenerates the event list of the configuration (deterministic);
+	// the list is held only while the job runs, not for the whole run
+	load   func() []genEvent
 	pauses []int
 	name   string // plugin name used in signatures
 	nDir   int    // the first nDir events are the directed (seed independent) part
@@ -744,6 +747,9 @@ func slowStart(cf cfgSpec) bool {
 	return false
 }
 
+// badGenerated: event texts of the main clause that encoding/json does not accept.
+var badGenerated int
+
 func buildJobs(c *core.Ctx) []*job {
 	nRandom := c.N(320, 9000)
 	nVariants := c.N(1, 5)
@@ -756,17 +762,36 @@ func buildJobs(c *core.Ctx) []*job {
 			cfgs = append(cfgs, variantsFor(ps, c.Rand("variants/"+ps.Name), nVariants)...)
 		}
 		for _, cf := range cfgs {
-			g := &evGen{fields: splitPaths(cf.Fields), dict: ps.Dict, rootDict: ps.RootDict, dictBias: ps.DictBias, benign: ps.Benign}
-			var evs []genEvent
-			for _, e := range cf.Prologue {
-				evs = append(evs, genEvent{Raw: []byte(e), Shape: "prologue"})
+			cf := cf
+			nDir := 0
+			genEvs := func() ([]genEvent, *rand.Rand) {
+				g := &evGen{fields: splitPaths(cf.Fields), dict: ps.Dict, rootDict: ps.RootDict, dictBias: ps.DictBias, benign: ps.Benign}
+				var evs []genEvent
+				for _, e := range cf.Prologue {
+					evs = append(evs, genEvent{Raw: []byte(e), Shape: "prologue"})
+				}
+				evs = append(evs, g.directed()...)
+				nDir = len(evs)
+				rng := rand.New(rand.NewSource(c.SubSeed("events/"+ps.Name+"/"+cf.Label, 0)))
+				for i := 0; i < nRandom; i++ {
+					evs = append(evs, g.random(rng))
+				}
+				return evs, rng
 			}
-			evs = append(evs, g.directed()...)
-			nDir := len(evs)
-			rng := rand.New(rand.NewSource(c.SubSeed("events/"+ps.Name+"/"+cf.Label, 0)))
-			for i := 0; i < nRandom; i++ {
-				evs = append(evs, g.random(rng))
+			// generated once here for the counts, the pauses and the generator's own
+			// contract, then dropped: every job regenerates its list when it runs
+			evs, rng := genEvs()
+			for _, e := range evs {
+				if !json.Valid(e.Raw) {
+					badGenerated++
+					if badGenerated < 5 {
+						fmt.Printf("generator bug: %s/%s emits invalid JSON %s\n", ps.Name, cf.Label, evStr(e.Raw))
+					}
+				}
 			}
+			nEvs := len(evs)
+			evs = nil
+			load := func() []genEvent { e, _ := genEvs(); return e }
 			name := ps.Name
 			if ps.Chain {
 				name = "chain:" + cf.Label
@@ -782,12 +807,12 @@ func buildJobs(c *core.Ctx) []*job {
 					nP *= cf.Parts / 2
 				}
 				for k := 1; k <= nP; k++ {
-					pauses = append(pauses, len(evs)*k/(nP+1)+rng.Intn(7))
+					pauses = append(pauses, nEvs*k/(nP+1)+rng.Intn(7))
 				}
 			}
 			sh := &cfgShared{seenCrash: map[string]int{}, seenInvalid: map[string]int{}}
 			mk := func(from, to, part int, random bool) {
-				j := &job{ps: ps, cfg: cf, events: evs, name: name, nDir: nDir, pauses: pauses, shared: sh, random: random, part: part}
+				j := &job{ps: ps, cfg: cf, load: load, name: name, nDir: nDir, pauses: pauses, shared: sh, random: random, part: part}
 				for i := from; i < to; i++ {
 					j.idxs = append(j.idxs, i)
 				}
@@ -801,13 +826,13 @@ func buildJobs(c *core.Ctx) []*job {
 			// directed ones so that classification stays seed independent
 			parts := cf.Parts
 			if parts <= 1 {
-				mk(0, len(evs), 0, false)
+				mk(0, nEvs, 0, false)
 			} else {
 				dParts := (parts + 1) / 2
 				for k := 0; k < dParts; k++ {
 					mk(nDir*k/dParts, nDir*(k+1)/dParts, k, false)
 				}
-				nR := len(evs) - nDir
+				nR := nEvs - nDir
 				for k := 0; k < parts; k++ {
 					mk(nDir+nR*k/parts, nDir+nR*(k+1)/parts, dParts+k, true)
 				}
@@ -832,17 +857,7 @@ func run(c *core.Ctx) {
 	}
 	jobs := buildJobs(c)
 	// the generator's own contract
-	bad := 0
-	for _, j := range jobs {
-		for _, e := range j.events {
-			if !json.Valid(e.Raw) {
-				bad++
-				if bad < 5 {
-					fmt.Printf("generator bug: %s/%s emits invalid JSON %s\n", j.name, j.cfg.Label, evStr(e.Raw))
-				}
-			}
-		}
-	}
+	bad := badGenerated // counted by buildJobs while the lists existed
 	if bad > 0 {
 		c.Fatal("generator emitted %d texts that encoding/json does not accept", bad)
 		return
@@ -899,13 +914,9 @@ func run(c *core.Ctx) {
 	if os.Getenv("C13_NO_CHAINS") == "" {
 		chainJobs = buildChainJobs(c)
 	}
-	for _, pj := range parJobs {
-		for _, e := range pj.events {
-			if !json.Valid(e.Raw) {
-				c.Fatal("generator emitted an invalid text for the concurrency clause: %s", evStr(e.Raw))
-				return
-			}
-		}
+	if parBadGenerated > 0 { // counted by buildParJobs while the lists existed
+		c.Fatal("generator emitted %d invalid texts for the concurrency clause", parBadGenerated)
+		return
 	}
 	for _, cj := range chainJobs {
 		for _, e := range cj.events.evs {
@@ -930,7 +941,13 @@ func run(c *core.Ctx) {
 				return
 			}
 			t0 := time.Now()
+			if j.load != nil && j.events == nil {
+				j.events = j.load()
+			}
 			rn.runJob(j)
+			if j.load != nil {
+				j.events = nil
+			}
 			if d := time.Since(t0); d > 20*time.Second {
 				fmt.Printf("note: slow job %s/%s part %d: %.1fs (%d events)\n", j.name, j.cfg.Label, j.part, d.Seconds(), len(j.idxs))
 			}
@@ -949,7 +966,15 @@ func run(c *core.Ctx) {
 		}
 	}
 	parTask := func(pj *parJob) func() {
-		return timed("par "+pj.name+"/"+pj.cfg.Label, func() { rn.runPar(pj) })
+		return timed("par "+pj.name+"/"+pj.cfg.Label, func() {
+			if pj.load != nil && pj.events == nil {
+				pj.events = pj.load()
+			}
+			rn.runPar(pj)
+			if pj.load != nil {
+				pj.events = nil
+			}
+		})
 	}
 	for _, pj := range parJobs {
 		if pj.normalize {
